@@ -33,6 +33,13 @@ class C06(ProgProp):
             return {"spec": spec, "variants": [{"conv": ["call", "value", "wrapped"][i % 3], "prio": g.gen_prio(rng, spec["kinds"])}
                                                for i in range(nv)]}
         case = ProgProp.gen(self, rng, tier, k)
+        import json
+        import zlib
+        dg = zlib.crc32(json.dumps(case["spec"]["templates"], sort_keys=True).encode())
+        if dg % 10 == 0:
+            # the runaway-recursion guard stops the computation: no context may be left active
+            case["spec"]["max_stack"] = 2 + (dg // 10) % 5
+            case["spec"]["ctx_fault"] = True
         if rng.random() < 0.15:
             # a context whose resume() raises when its suspended task is resumed: the task fails;
             # every other context it holds must still end paused
